@@ -9,7 +9,7 @@ SPEC = {
     "module": "C13.Property",
     "targets": ["C13/Property.vo"],
     "theorems": ["C13_invariant", "C13_exact_or_refused", "C13_current_is_empty", "C13_window_served",
-                 "C13_window_size", "C13_unknown_refused", "C13_foreign_session_refused", "C13_delta_since_spec",
+                 "C13_window_size", "C13_unknown_refused", "C13_foreign_session_refused", "C13_delta_since_spec", "C13_model_satisfies_spec",
                  "C13_nonvacuous"],
     "streams": [_STREAM],
     "level_text": "Invariant proof over all histories (any number of updates, any starting serial incl. wrap-around): "
@@ -19,8 +19,8 @@ SPEC = {
                   "the window (retained change sets + 1, see C14 for the count) is answered, everything else and "
                   "every foreign session is refused. Hypothesis history-size < 2^31 is explicit. The executable "
                   "oracle (independent abstract spec: list of all issued versions) is evaluated on the "
-                  "implementation's answers; the theorem `model satisfies oracle` is NOT proved for this property "
-                  "(the oracle is validated by agreement with the model on every generated case instead).",
+                  "implementation's answers; C13_model_satisfies_spec proves that the model's observations satisfy that "
+                  "oracle for every update sequence and query list (refinement of the abstract history).",
     "level_note": "Model hand-written from src/payload/history.rs after the two fix: commits (push_delta bound; "
                   "delta_since exact match on serial+1). Tie: SharedHistory::update through the public API with SLURM "
                   "prefix assertions as data, PayloadSource::{diff,full,notify,ready}; hook verif_init_at places the "
